@@ -39,6 +39,16 @@ def __getattr__(name):
 
     @func.register(da.Array)
     def _(*args, **kwargs):
+        # Without axes, scipy applies `s` to the last len(s) axes; dask's wrapper
+        # would take the first ones.
+        if name.endswith("fftn"):
+            s = kwargs.get("s", args[1] if len(args) > 1 else None)
+            axes = kwargs.get("axes", args[2] if len(args) > 2 else None)
+            if s is not None and axes is None:
+                axes = tuple(range(-len(s), 0))
+                args = (args[0], s, axes) + tuple(args[3:])
+                kwargs = {k: v for k, v in kwargs.items() if k not in ("s", "axes")}
+
         wrapped_func = da.fft.fft_wrap(_fft_func)
         return wrapped_func(*args, **kwargs)
 
